@@ -234,13 +234,16 @@ def _unsupported(*a, **k):
 
 # ------------------------------------------------------------------ hashes / KDFs
 
-def _uf_blob(tag, key, n, meta=None):
-    """uninterpreted function result: one blob per distinct structural argument key"""
+def _uf_blob(tag, key, n, meta=None, args=None):
+    """uninterpreted function result: one blob per distinct structural argument key; the arguments are kept
+    so that rope.blob_eq can relate two results (congruence / collision freedom)"""
     e = E()
     cache = e.tags.setdefault('uf_' + tag, {})
     if key not in cache:
         b = rope.Blob('%s%d' % (tag, len(cache) + 1), rope._zi(n), meta=dict(meta or {}))
         b.meta['uf'] = tag
+        if args is not None:
+            b.meta['uf_args'] = list(args)
         cache[key] = b
     b = cache[key]
     return rope.mk([('view', b, z3.IntVal(0), rope._zi(n))])
@@ -270,7 +273,7 @@ class Hash:
         self.data = self.data + _as_bytes(data, 'data')
 
     def finalize(self):
-        return _uf_blob('sha', _k(self.data), 32, meta={'sha_of': self.data})
+        return _uf_blob('sha', _k(self.data), 32, meta={'sha_of': self.data}, args=[self.data])
 
     def copy(self):
         h = Hash(self.alg)
@@ -288,7 +291,8 @@ class HKDF:
     def derive(self, key_material):
         km = _as_bytes(key_material, 'key_material')
         return _uf_blob('hkdf', (_k(self.salt), _k(self.info), _k(self.length), _k(km)), self.length,
-                        meta={'hkdf': dict(salt=self.salt, info=self.info, length=self.length, km=km)})
+                        meta={'hkdf': dict(salt=self.salt, info=self.info, length=self.length, km=km)},
+                        args=[self.salt, self.info, self.length, km])
 
 
 class Scrypt:
@@ -314,7 +318,7 @@ class Scrypt:
         self.used = True
         km = _as_bytes(key_material, 'key_material')
         return _uf_blob('scrypt', (_k(self.salt), _k(self.length), _k(self.n), _k(self.r), _k(self.p), _k(km)),
-                        self.length)
+                        self.length, args=[self.salt, self.length, self.n, self.r, self.p, km])
 
     def verify(self, key_material, expected_key):
         derived = self.derive(key_material)
